@@ -155,6 +155,39 @@ def correspondence(ctx, batch):
                 it.append([a, None])
         batch.add({"op": "parsemerge", "in": m, "percent": pt, "int": it, "defaultPercent": [dn, dd],
                    "defaultNumber": N.DEFAULT}, ans, {"merge": m})
+    # the whole `--merge` list through the real validate + set_args against `Cli.parseMergeList`: one comparator per item,
+    # in order, kinds repeated, an invalid name anywhere reported first
+    rng_m = ctx.rng("mergelist")
+    pool = ["percent", "number", "exact", "percent_95", "percent_33.3", "percent_50", "percent_90", "number_5", "number_2",
+            "number_6", "number_07", "percent_1e1", "number_x", "percent_abc", "foo", "foo_1", "exact_1", "number_-1"]
+    for k in range(ctx.n(60, 600)):
+        good = rng_m.random() < 0.7
+        items = [rng_m.choice(pool[:12] if good else pool) for _ in range(rng_m.randint(0, 5))]
+        if k % 5 == 0:
+            kind = rng_m.choice(["number", "percent"])
+            items = [x for x in pool[:12] if x.startswith(kind)]
+            rng_m.shuffle(items)
+        def run_list(items=items):
+            mp = [x.split("_") if "_" in x else x for x in items]
+            cli = Cli()
+            cli.validate(mp, "base", None)
+            cli.set_args(mp, "flat", "base", None, [], [], [], False, None)
+            return [stages.enc_cmp(c) for c in cli.merge_policy]
+        ans = stages.impl_call(run_list)
+        pt, it = [], []
+        for x in items:
+            for a in x.split("_")[1:]:
+                try:
+                    n_, d_ = Fraction(repr(float(a) / 100)).as_integer_ratio()
+                    pt.append([a, max(n_, 0), d_])
+                except (ValueError, OverflowError, ZeroDivisionError):
+                    pt.append([a, None])
+                try:
+                    it.append([a, max(0, int(a))])
+                except ValueError:
+                    it.append([a, None])
+        batch.add({"op": "parsemergelist", "in": items, "percent": pt, "int": it, "defaultPercent": [dn, dd],
+                   "defaultNumber": N.DEFAULT}, ans, {"merge": items})
 
 
 # ------------------------------------------------------------------------------------------ falsifier
